@@ -332,4 +332,22 @@ theorem fold_cond_meets_c (t1 t2 : IType) (c a b : W64) :
 example : foldCond .int .ulong 0 7 (-1) = -1 ∧ foldCond .uint .int 1 (-1) 5 = 0xFFFFFFFF ∧
     valOf (usualArith .uint .int) (foldCond .uint .int 0 9 (-1)) = 4294967295 := by decide
 
+/-- **Promotion of bit-fields** (C11 6.3.1.1p2).  For a bit-field member declared `int` or
+`unsigned int` with any width 1..32, the type the CURRENT c2mir computes with (expression type
+from check() followed by `integer_promotion`) is `int` when int can represent all its values and
+`unsigned int` otherwise (only `unsigned f:32`).  Both the width test and the replacement type are
+regenerated from the source on every run. -/
+theorem bf_promotion_rule (b : IType) (hb : b = .int ∨ b = .uint) (w : Nat) (h1 : 1 ≤ w) (h32 : w ≤ 32) :
+    ofCTy (integer_promotion (bfExprTy b w)) = some (cBfPromote b w) := by
+  have h := gen_bf_promotion_std
+  rw [List.all_eq_true] at h
+  have hb' : b ∈ [IType.int, IType.uint] := by rcases hb with rfl | rfl <;> simp
+  have h1' := h b hb'
+  rw [List.all_eq_true] at h1'
+  have := h1' (w - 1) (by simp; omega)
+  rw [show w - 1 + 1 = w by omega] at this
+  simpa using this
+
+example : cBfPromote .uint 32 = .uint ∧ cBfPromote .uint 31 = .int ∧ cBfPromote .int 32 = .int := by decide
+
 end MirVerif.CArith
